@@ -699,7 +699,122 @@ func backlogRound(rng *rand.Rand, round int, emit func(Ev)) bool {
 	return true
 }
 
+// cancelRound: "a producer blocked by block-on-overflow ... returns with its context's error when the context ends first".
+// The queue is full and STAYS full (the only export call is held at a gate); a producer blocks; its context is cancelled or
+// its deadline passes; it must come back with the context's error although nothing frees any space (seeded change C02-8
+// detached the context the persistent queue waits with).
+func cancelRound(rng *rand.Rand, round int, emit func(Ev)) bool {
+	cfg := Cfg{Sizer: []string{"requests", "items", "bytes"}[rng.Intn(3)], Cap: int64(1 + rng.Intn(3)), Block: true, WFR: false,
+		Persistent: rng.Intn(2) == 0, Consumers: 1 + rng.Intn(2)}
+	if cfg.Persistent {
+		cfg.Sizer, cfg.Consumers = "requests", 1
+	}
+	var mu sync.Mutex
+	log := func(e Ev) { mu.Lock(); emit(e); mu.Unlock() }
+	release := make(chan struct{})
+	w := 0
+	next := func(_ context.Context, r request.Request) error {
+		mu.Lock()
+		w++
+		emit(Ev{Ev: "push_start", Req: r.(*vreq).Name, W: w})
+		mu.Unlock()
+		<-release
+		return nil
+	}
+	e, err := newEnv(cfg, next)
+	if err != nil {
+		return true
+	}
+	c := cfg
+	log(Ev{Ev: "reset", Round: round, Cfg: &c, Heavy: true})
+	if err := startC(func(sc context.Context) error { return e.qb.Start(sc, e.host) }); err != nil {
+		return true
+	}
+	// fill the queue with requests of size 1 that stay unfinished.  The in-memory queue counts a request until it has
+	// finished: Cap requests fill it.  The persistent queue resets its size to zero whenever a read empties it, so: one
+	// consumer, which first takes one request out of the (then empty) queue and is held; Cap more requests fill it.
+	fills := int(cfg.Cap)
+	send := func(i int) {
+		n := fmt.Sprintf("f%d", i)
+		err := e.qb.Send(context.Background(), mkReq(n, 1, cfg.Sizer))
+		log(Ev{Ev: "offer_end", P: 1, Req: n, Res: classify(err), Size: 1})
+	}
+	if cfg.Persistent {
+		fills++
+		send(1)
+		for t := 0; t < 10000; t++ { // wait until the consumer holds it
+			mu.Lock()
+			n := w
+			mu.Unlock()
+			if n >= 1 {
+				break
+			}
+			time.Sleep(time.Millisecond)
+		}
+		for i := 2; i <= fills; i++ {
+			send(i)
+		}
+	} else {
+		for i := 1; i <= fills; i++ {
+			send(i)
+		}
+	}
+	ok := true
+	for k := 0; k < 3 && ok; k++ {
+		ctx, cancel := context.WithCancel(context.Background())
+		if k == 1 {
+			ctx, cancel = context.WithTimeout(context.Background(), time.Duration(1+rng.Intn(20))*time.Millisecond)
+		}
+		res := make(chan string, 1)
+		name := fmt.Sprintf("x%d", k+1)
+		go func() { res <- classify(e.qb.Send(ctx, mkReq(name, 1, cfg.Sizer))) }()
+		time.Sleep(time.Duration(200+rng.Intn(3000)) * time.Microsecond) // let it block
+		cancel()
+		select {
+		case r := <-res:
+			log(Ev{Ev: "offer_end", P: 2, Req: name, Res: r, Size: 1})
+			if r != "ctx" {
+				// the queue was full for the whole call: neither accepted nor refused for lack of space are possible
+				log(Ev{Ev: "hang", Blocked: []string{fmt.Sprintf("blocked-producer-cancel: the queue was full for the whole call and the producer's context ended, but Send returned %q instead of the context's error", r)}})
+				ok = false
+			}
+		case <-time.After(30 * time.Second):
+			log(Ev{Ev: "hang", Blocked: append([]string{"blocked-producer-cancel: a producer blocked on a full queue did not return within 30 s after its context ended (nothing frees space: the export call is held)"}, blockedSites()...)})
+			ok = false
+		}
+	}
+	close(release)
+	if !ok {
+		return false
+	}
+	// let the fill requests through before shutting down (a persistent queue keeps what is still queued at shutdown)
+	for t := 0; t < 10000; t++ {
+		mu.Lock()
+		n := w
+		mu.Unlock()
+		if n >= fills {
+			break
+		}
+		time.Sleep(time.Millisecond)
+	}
+	log(Ev{Ev: "shutdown_start"})
+	done := make(chan struct{})
+	go func() { _ = e.qb.Shutdown(context.Background()); close(done) }()
+	select {
+	case <-done:
+	case <-time.After(30 * time.Second):
+		log(Ev{Ev: "hang", Blocked: blockedSites()})
+		return false
+	}
+	log(Ev{Ev: "shutdown_end"})
+	_ = e.tel.Shutdown(context.Background())
+	return true
+}
+
 func stressRound(rng *rand.Rand, round int, emit func(Ev)) bool {
+	if round%16 == 14 || round%16 == 9 {
+		return cancelRound(rng, round, emit)
+	}
 	if round%16 == 3 || round%16 == 10 {
 		return backlogRound(rng, round, emit)
 	}
